@@ -89,7 +89,11 @@ impl AstModuleInspect for AstModule {
             }
             Some(line_span) => line_span,
         };
-        let current_pos = std::cmp::min(line_span.begin() + col, line_span.end());
+        // `col` comes from the client: it may be anything, including `u32::MAX`.
+        let current_pos = std::cmp::min(
+            Pos::new(line_span.begin().get().saturating_add(col)),
+            line_span.end(),
+        );
 
         // Walk through the AST to find a node matching the current position.
         fn walk_and_find_completion_type(
